@@ -935,8 +935,13 @@ def _compare(E, ctx, I, m, conc, out, kind, value, tr_old, con):
         ty = conc.types.get(oid)
         if not isinstance(ty, (TObj, TAbs)) or getattr(ty, "observe", None) is not None:
             continue  # ghost fields of real library objects are only meaningful where the library defines them
+        assigned = None
+        if oid in getattr(conc, "blank", ()) and con.new_object and (out.get("bound") or {}).get(con.new_object) is not None:
+            # the object under construction: an attribute this path never assigned is not an instance attribute at all (CPython falls back to
+            # whatever the class defines, the encoding leaves it arbitrary) - only what the path stored is compared
+            assigned = ctx.present.get(z3.simplify(Z.Val.id(out["bound"][con.new_object].t)).sexpr(), set())
         for f, fty in ty.fields.items():
-            if f not in ctx.heap:
+            if f not in ctx.heap or (assigned is not None and f not in assigned):
                 continue
             try:
                 sym = final.value(z3.Select(ctx.heap[f], z3.IntVal(oid)), fty)
